@@ -518,7 +518,11 @@ class Evaluator(object):
             base = None
             if 'base' in node:
                 base = self.eval(node['base'], env, guards, fn, chain)
-            t = ('struct', norm_path(H.res_path(node['res'])), tuple(sorted(fs)), base)
+            sp_ = norm_path(H.res_path(node['res']))
+            if sp_ == 'std::ops::Range' and base is None and dict(fs).get('start') == ('lit', '0'):
+                # `0..n` and `..n` are the same range of an unsigned index
+                sp_, fs = 'std::ops::RangeTo', [(n, v) for n, v in fs if n != 'start']
+            t = ('struct', sp_, tuple(sorted(fs)), base)
             self.emit('struct', t, node, guards, fn, chain)
             return t
         if k in ('Call', 'MethodCall'):
